@@ -49,10 +49,14 @@
 
 mod orswot;
 mod timestamp;
+#[cfg(datacake_verif)]
+pub mod verif;
 
 #[cfg(feature = "rkyv-support")]
 pub use orswot::BadState;
 pub use orswot::{Key, OrSWotSet, StateChanges};
+#[cfg(datacake_verif)]
+pub use orswot::VerifProjection;
 pub use timestamp::{
     get_datacake_timestamp,
     get_unix_timestamp_ms,
